@@ -367,7 +367,8 @@ fn run(ctx: &mut Ctx, si: usize, case: u64) {
                     let (spec, _) = gen_object(&mut ctx.rng, enc, &GenOpts::standard());
                     let mut b = build(&spec, &mut ctx.rng);
                     let n = 1 + ctx.rng.usize_below(3);
-                    let log = mutate::structured(&mut ctx.rng, &mut b, n);
+                    let mut log = if kind == 2 { let k = 1 + ctx.rng.usize_below(4); mutate::maximize_ranges(&mut ctx.rng, &mut b, k) } else { Vec::new() };
+                    log.extend(mutate::structured(&mut ctx.rng, &mut b, if kind == 2 { 0 } else { n }));
                     (b.bytes, format!("generated {} + {:?}", enc.name(), log))
                 }
                 3 => {
